@@ -296,7 +296,7 @@ package gts
 // region.go: Segment
 
 //@ func (s Segment) Len() (n int)
-//@   prop C08 C09
+//@   prop C08 C09 C15
 //@   requires coord(s[0]) && coord(s[1])
 //@   ensures n == abs(s[1] - s[0])
 
@@ -305,7 +305,7 @@ package gts
 //@   ensures h == s[0]
 
 //@ func (s Segment) Tail() (t int)
-//@   prop C08
+//@   prop C08 C15
 //@   ensures t == s[1]
 
 //@ func (s Segment) Complement() (out Region)
@@ -320,17 +320,17 @@ package gts
 //@   min(a0, a1) < min(b0, b1) || (min(a0, a1) == min(b0, b1) && max(a0, a1) < max(b0, b1))
 
 //@ func (ss BySegment) Less(i, j int) (r bool)
-//@   prop C09 C18
+//@   prop C09 C18 C15
 //@   requires 0 <= i && i < len(ss) && 0 <= j && j < len(ss)
 //@   ensures r <==> segLess(ss[i][0], ss[i][1], ss[j][0], ss[j][1])
 //@   assigns nothing
 
 //@ func (ss BySegment) Len() (n int)
-//@   prop C09 C18
+//@   prop C09 C18 C15
 //@   ensures n == len(ss)
 
 //@ func (ss BySegment) Swap(i, j int)
-//@   prop C09 C18
+//@   prop C09 C18 C15
 //@   requires 0 <= i && i < len(ss) && 0 <= j && j < len(ss)
 //@   ensures ss[i] == old(ss[j]) && ss[j] == old(ss[i])
 //@   ensures forall k in 0..len(ss): k != i && k != j ==> ss[k] == old(ss[k])
@@ -410,7 +410,7 @@ package gts
 //@   loop 1: ghost_update W(x) := ite(len(ss) < iter_old(len(ss)) && W(x) > i, W(x) - 1, W(x))
 
 //@ func invertSegments(ss []Segment, n int) (rr []Segment)
-//@   prop C09
+//@   prop C09 C15
 //@   requires 0 <= n
 //@   requires forall k in 0..len(ss): 0 <= ss[k][0] && ss[k][0] <= ss[k][1] && ss[k][1] <= n
 //@   requires forall a in 0..len(ss): forall b in a+1..len(ss): ss[a][1] < ss[b][0]
@@ -667,7 +667,7 @@ package gts
 //@ spec macro oldSeq(s Sequence) bool = isold(bytesOf(s)) && isold(featsOf(s))
 
 //@ func Insert(host Sequence, index int, guest Sequence) (out Sequence)
-//@   prop C02 C11 C10
+//@   prop C02 C11 C10 C15
 //@   requires !isnil(host) && !isnil(guest) && 0 <= index && index <= len(bytesOf(host)) && oldSeq(host) && oldSeq(guest)
 //@   ensures !isnil(out) && len(bytesOf(out)) == len(bytesOf(host)) + len(bytesOf(guest)) && fresh(bytesOf(out))
 //@   ensures head: forall k in 0..index: bytesOf(out)[k] == old(bytesOf(host)[k])
@@ -681,7 +681,7 @@ package gts
 //@   loop 2: decreases len(featsOf(guest)) - idx2
 
 //@ func Embed(host Sequence, index int, guest Sequence) (out Sequence)
-//@   prop C02 C11 C10
+//@   prop C02 C11 C10 C15
 //@   requires !isnil(host) && !isnil(guest) && 0 <= index && index <= len(bytesOf(host)) && oldSeq(host) && oldSeq(guest)
 //@   ensures !isnil(out) && len(bytesOf(out)) == len(bytesOf(host)) + len(bytesOf(guest)) && fresh(bytesOf(out))
 //@   ensures head: forall k in 0..index: bytesOf(out)[k] == old(bytesOf(host)[k])
@@ -695,7 +695,7 @@ package gts
 //@   loop 2: decreases len(featsOf(guest)) - idx2
 
 //@ func Delete(seq Sequence, offset, length int) (out Sequence)
-//@   prop C03 C11 C10
+//@   prop C03 C11 C10 C15
 //@   requires !isnil(seq) && 0 <= offset && 0 <= length && offset + length <= len(bytesOf(seq)) && oldSeq(seq)
 //@   ensures !isnil(out) && len(bytesOf(out)) == len(bytesOf(seq)) - length && fresh(bytesOf(out))
 //@   ensures head: forall k in 0..offset: bytesOf(out)[k] == old(bytesOf(seq)[k])
@@ -768,7 +768,7 @@ package gts
 //@   ensures emod(a + m, m) == emod(a, m)
 
 //@ func Rotate(seq Sequence, n int) (out Sequence)
-//@   prop C04 C11
+//@   prop C04 C11 C15
 //@   requires !isnil(seq) && oldSeq(seq) && 0 < len(bytesOf(seq)) && coord(n) && coord(len(bytesOf(seq)))
 //@   ensures !isnil(out) && len(bytesOf(out)) == len(bytesOf(seq)) && fresh(bytesOf(out))
 //@   ensures low: forall k in 0..emod(n, len(bytesOf(seq))): bytesOf(out)[k] == old(bytesOf(seq)[len(bytesOf(seq)) - emod(n, len(bytesOf(seq))) + k])
@@ -832,7 +832,7 @@ package gts
 //@   assigns loc.(Joined), loc.(Ordered)
 
 //@ func Erase(seq Sequence, offset, length int) (out Sequence)
-//@   prop C03 C11
+//@   prop C03 C11 C15
 //@   requires !isnil(seq) && 0 <= offset && 0 <= length && offset + length <= len(bytesOf(seq)) && oldSeq(seq)
 //@   ensures !isnil(out) && len(bytesOf(out)) == len(bytesOf(seq)) - length && fresh(bytesOf(out))
 //@   ensures head: forall k in 0..offset: bytesOf(out)[k] == old(bytesOf(seq)[k])
@@ -841,7 +841,7 @@ package gts
 //@   assigns nothing
 
 //@ func Slice(seq Sequence, start, end int) (out Sequence)
-//@   prop C03 C11 C10
+//@   prop C03 C11 C10 C15
 //@   requires !isnil(seq) && oldSeq(seq) && coord(len(bytesOf(seq)))
 //@   requires 0 <= start && start <= end && end <= len(bytesOf(seq))
 //@   ensures !isnil(out) && len(bytesOf(out)) == end - start && fresh(bytesOf(out))
